@@ -1,5 +1,5 @@
 from vdriver import Group
-META = {'level': 'other'}
+META = {'level': 'other', 'assumptions': ['group tick.cleanup: everything Node::tick delegates to (store sweep, DHT sweep, withdraw_contact, retire_swarm_ledger, rebalance / upload / fetch / key-rotation passes) is replaced by ghost-counting frame contracts; rebalance_swarm_plans is assumed never to create a plan']}
 STUBS = ['ChunkStore__sweep_expired', 'KademliaTable__sweep_expired', 'KademliaTable__withdraw_contact', 'Node__retire_swarm_ledger', 'Node__rebalance_swarm_plans',
          'Node__process_pending_uploads', 'Node__process_pending_fetches', 'Node__rotate_session_keys', 'chunk_id_to_string']
 def groups(tier):
